@@ -114,6 +114,16 @@ def _iter_unit(cls_mod, cls_name, lib_name, symmetric):
             u.ensure(mat is M or (getattr(mat, "transposed_of", None) is A and trans and not symmetric), "iterates_with_mat.T_iff_trans")
             u.ensure(r2 is rhs, "iterates_with_the_given_rhs")
             u.ensure((kw.get("x0") is x0) if with_guess else (kw.get("x0") is None), "passes_the_initial_guess_on")
+            # the ASSUMED library contract (info == 0 => ||b - A x||_2 <= max(rtol ||b||, atol), rtol = 1e-5) is a
+            # statement about the plain call: a preconditioner M, a shift, a callback-driven stop or a looser
+            # tolerance changes what info == 0 means (scipy then tests the PRECONDITIONED residual), so the
+            # wrapper may pass nothing but the start vector, the iteration cap and tolerances that are not looser
+            allowed = {"x0", "maxiter", "atol", "rtol", "restart"} if lib_name == "gmres" else {"x0", "maxiter", "rtol"}
+            u.ensure(set(kw) <= allowed, "iteration_called_only_with_keywords_the_assumed_library_contract_covers", desc=f"keywords {sorted(kw)}")
+            for tk, cap in (("atol", 1e-8), ("rtol", 1e-5)):
+                if tk in kw:
+                    tv = kw[tk]
+                    u.ensure(tv <= cap if isinstance(tv, (int, float)) else ops._real(tv) <= ops._real(cap), f"{tk}_not_looser_than_the_assumed_contract")
             u.ensure(info == 0, "returns_a_vector_only_when_info==0")
         u.cover("end")
 
